@@ -226,7 +226,8 @@ impl Cons {
     pub fn is_taggable(&self) -> bool {
         !matches!(self, Cons::Clause { .. } | Cons::Conj { .. } | Cons::PredClause { .. })
     }
-    pub fn vars(&self) -> Vec<usize> {
+    /// every variable occurrence (with repetitions)
+    pub fn vars_multi(&self) -> Vec<usize> {
         let mut v: Vec<usize> = vec![];
         let mut t = |x: &Term| v.push(x.var);
         match self {
@@ -270,6 +271,11 @@ impl Cons {
             Cons::Cumulative { starts, .. } => starts.iter().for_each(&mut t),
             Cons::PredClause { preds } => v.extend(preds.iter().map(|p| p.var)),
         }
+        v
+    }
+
+    pub fn vars(&self) -> Vec<usize> {
+        let mut v = self.vars_multi();
         v.sort_unstable();
         v.dedup();
         v
